@@ -232,6 +232,7 @@ def snapshot_log(rng, sid, length, stale):
     for i in range(n):
         if i == cut:
             s.raw("Z 0 %d" % WALL, ["snapshot", 0])
+            if stale: s.raw("G", ["digest"])       # what the snapshot holds (node 0 at this instant)
             if not stale:
                 if rng.random() < 0.5: s.raw("F 2", ["fresh", 2])
                 s.raw("V 2 %d" % WALL, ["restore", 2])
@@ -477,6 +478,15 @@ def oracle07(script, impl_lines):
             for g in gs:
                 if len(set(norm_g("G " + x, True) for x in g)) > 1:
                     return "nodes hold different datasets after the same log prefix: %s" % g
+    if kind == "stale":
+        # an old snapshot of node 0 installed on node 1, which has moved on: node 1 must hold exactly what node 0 held when
+        # the snapshot was taken (first digest of the script) — nothing it acquired since may survive
+        gs = blocks(impl_lines, "G")
+        if len(gs) >= 2 and len(gs[0]) > 0 and len(gs[-1]) > 1 and any(l.startswith("V 1 ") for l in script.lines) \
+           and script.lines.index([l for l in script.lines if l.startswith("Z ")][0]) < script.lines.index("G") if any(l.startswith("Z ") for l in script.lines) and "G" in script.lines else False:
+            if norm_g("G " + gs[-1][1], False, False) != norm_g("G " + gs[0][0], False, False):
+                return ("node 1 restored the snapshot node 0 took at the first digest, yet holds %s instead of %s"
+                        % (gs[-1][1], gs[0][0]))
     if kind == "handle":
         # a node that is not the leader never changes its own dataset for a replicated command
         gi = [i for i, l in enumerate(impl_lines) if l.startswith("G0 ")]
